@@ -61,7 +61,26 @@ fn main() {
         std::process::exit(2);
     }
     let cmd = argv[1].as_str();
-    let (m, pos) = args_map(&argv[2..]);
+    let (mut m, mut pos) = args_map(&argv[2..]);
+    // `use`/`include` of sources compiled without a file path resolve against the working
+    // directory (and its ancestors' lib/): pin it to the repository root so that results do
+    // not depend on where the driver was started. Path arguments are made absolute first.
+    if let Ok(cwd) = std::env::current_dir() {
+        let abs = |v: &mut String| {
+            if !v.is_empty() && std::path::Path::new(v.as_str()).is_relative() {
+                *v = cwd.join(v.as_str()).to_string_lossy().to_string();
+            }
+        };
+        for k in ["replay", "out", "journal", "hashes", "spill"] {
+            if let Some(v) = m.get_mut(k) {
+                abs(v);
+            }
+        }
+        if matches!(cmd, "distinct" | "artefacts" | "diag") {
+            pos.iter_mut().for_each(abs);
+        }
+    }
+    let _ = std::env::set_current_dir("/repo");
     if cmd == "distinct" {
         // count distinct u64 values over binary files
         let mut all: Vec<u64> = vec![];
